@@ -7,6 +7,17 @@ TB = ("Trusts: Coq 8.16.1 kernel (vm_compute for finite sweeps, no native_comput
       "hand-written control-flow models tied only by the differential correspondence (harness/*.c under ASan/UBSan vs the "
       "ExtrOcamlBasic-extracted model in ocaml/driver); C integer semantics modelled in Z under stated range hypotheses.")
 CLAIMED = {
+ "C03": ("Theorems c03_<generator> (13) and c03_images: for ALL argument values and ANY list of appended well-formed tags (or details) the "
+         "model of create_*/add/dump - struct images built at the compiled offsets, tags through the C05 model - serialises exactly the "
+         "hand-written 802.11 byte layout, for every buffer size, with the reported length equal to the byte count; RTS/CTS/ATIM images "
+         "are exact. Compared byte for byte with the library for all 16 generators under an injected clock.",
+         "Rocq algebraic proofs over translator-regenerated layouts; differential correspondence"),
+ "C07": ("Theorems c07_dump_object / c07_dump_action / c07_dump_tag: for EVERY object and EVERY caller buffer the sequence of checked "
+         "writes either reports an error leaving the buffer untouched or writes exactly the reported bytes from the first byte and "
+         "nothing beyond, never faulting; c07_radiotap_bound: for ALL 2^32 present words and <= 16 antennas the 120-byte staging area "
+         "is never overrun (worst case 89 bytes, computed on the table as compiled) and the header is <= 128 bytes; c07_random_mac. "
+         "Every dump routine is run on every buffer size 0..len+2 in exactly sized heap blocks under ASan.",
+         "Rocq frame-rule proofs over a checked-write memory model; exhaustive buffer-size sweeps under ASan"),
  "C05": ("Theorems c05_inv (every history of any length keeps the stored bytes a well-formed element sequence with the recorded length), "
          "c05_step_refines (add/remove/set/check agree with the reference list whenever the property constrains them), c05_enc_injective; "
          "the model of tag.c is run against the library on breadth-first histories (state-deduplicated) and long random histories, "
@@ -17,6 +28,16 @@ CLAIMED = {
          "order, maximality, prefix-completeness, first-element refusal and a report bound on the Spec; iterator fields after every step "
          "are compared with the library on exhaustive length-skeleton buffers and random buffers.",
          "Rocq refinement proof over a read-oracle model; differential correspondence"),
+ "C11": ("Theorems c11_crc_exact (the C loop with constants re-read from the source computes the IEEE 802.3 32-stage division "
+         "register, for every message and every in-bounds read oracle), c11_tbl_equiv (an independent table-driven CRC derived from G), "
+         "c11_fcs_bytes, c11_verify_iff, c11_short_no. Compared with the library and with zlib on exhaustive short strings, the "
+         "single-bit basis, random strings up to 64 KiB, valid frames and all their single-bit flips.",
+         "Rocq refinement proof against a bit-serial register spec; differential correspondence"),
+ "C12": ("Theorems c12_recognise_iff, c12_message (all 65536 key-information values), c12_extract_exact, c12_key_data_length, "
+         "c12_classified_ok: on every classified frame the EAPOL routines (offsets, switch table and cap re-read from the source) return "
+         "exactly the big-endian fields at the standard offsets and the key data limited by declared length, cap and bytes present, with "
+         "every body read inside the library's copy. Compared with the library on key-information sweeps and length grids.",
+         "Rocq refinement proofs over a read-oracle model; differential correspondence"),
  "C17": ("Theorem c17_describe_exact: for each of the four description routines and EVERY summary value the model of the routine "
          "(snprintf contract, tables re-read from the source on every run) stays inside the LIBWIFI_SECURITY_BUF_LEN-byte block and leaves "
          "a NUL-terminated string shorter than the buffer that is 'None' or the comma-separated names of exactly the set flags; c17_tables / "
